@@ -33,7 +33,7 @@ const alphabet = "123456789ABCDEFGHJKLMNPQRSTUVWXYZabcdefghijkmnopqrstuvwxyz"
 
 // input is the replayable description of one probe.
 type input struct {
-	Kind string   `json:"kind"` // b58 | addr | hex | hexaddr | parse | enc | dec | big | bigstr | hist | dhist | hhist
+	Kind string   `json:"kind"` // b58 | addr | hex | hexaddr | parse | enc | dec | big | bigstr | hist | dhist | hhist | conc
 	S    string   `json:"s"`    // hex of the bytes of the string / address / buffer (hist: concatenated 20-byte addresses)
 	L    []string `json:"l,omitempty"` // dhist/hhist: the sequence of strings (hex of their bytes)
 	Note string   `json:"note,omitempty"`
@@ -49,6 +49,7 @@ type drv struct {
 	longHist [][]byte
 	longSeen int
 	res      common.Address
+	nfail    int // failures reported by the concurrent rounds
 }
 
 func (d *drv) wantCase(kind string) bool {
@@ -699,6 +700,8 @@ func (d *drv) replayOne(in input) {
 		d.probeLib(in.Kind, b)
 	case "hist":
 		d.history(splitAddrs(b), in.Note)
+	case "conc":
+		d.replayConc(splitAddrs(b))
 	case "dhist", "hhist":
 		var strs []string
 		for _, h := range in.L {
@@ -746,6 +749,8 @@ func Run(c *hx.Ctx) {
 	// object histories: reused Address objects / result variables, interleaved with fresh ones
 	d.histories(c.N(60, 600))
 	d.decodeHistories(c.N(20, 200))
+	// concurrent use: 8 goroutines on their own addresses, every result against the pure spec
+	d.concurrent(8, c.N(800, 4000))
 	// the real SHA-256 of Lib/Sha256.v on a few addresses and strings
 	for i := 0; i < c.N(2, 10); i++ {
 		a := d.randAddr()
